@@ -127,11 +127,11 @@ Section Visit.
       | INone => False
       end.
 
-  Definition the_tbl (l : list (bytes * item)) (pos : option N) : tbl :=
-    Tbl (mk_tbl_items l) decor_default false false pos None.
+  Definition the_tbl (im : bool) (l : list (bytes * item)) (pos : option N) : tbl :=
+    Tbl (mk_tbl_items l) decor_default im false pos None.
 
-  Lemma table_values_flat fuel l pos : entries_flat l ->
-    table_values (S fuel) [] (t_items (render_tbl ftext (the_tbl l pos)))
+  Lemma table_values_flat fuel im l pos : entries_flat l ->
+    table_values (S fuel) [] (t_items (render_tbl ftext (the_tbl im l pos)))
     = flat_map (fun kv => match snd kv with IValue v => [([key_new (fst kv)], render_value ftext v)] | _ => [] end) l.
   Proof.
     intro Hf. unfold the_tbl. rewrite render_tbl_eq. cbn [t_items table_values]. unfold mk_tbl_items. rewrite map_map.
@@ -140,16 +140,26 @@ Section Visit.
     pose proof (Hf k it (or_introl eq_refl)) as Hit.
     destruct it as [|v|sub|ts sp0]; [contradiction| | |reflexivity].
     - rewrite render_item_value. pose proof (built_not_dotted ftext PS PK v Hit) as Hnd.
-      destruct (render_value ftext v) as [s r d|vals tr c d sp1|items pre im dt d sp1]; try reflexivity.
+      destruct (render_value ftext v) as [s r d|vals tr c d sp1|items pre im0 dt d sp1]; try reflexivity.
       destruct dt; [contradiction|reflexivity].
     - rewrite render_item_table. destruct sub as [si sd sim sdt sp1 ss]. cbn [t_dotted] in Hit. subst sdt.
       rewrite render_tbl_eq. reflexivity.
   Qed.
 
-  Definition table_lines (P : list bytes) (a first : bool) (l : list (bytes * item)) : list dline :=
-    (match P with [] => [] | _ => (if first then [] else [LBlank]) ++ [LHeader a P] end) ++ val_lines l.
-  Definition table_first (P : list bytes) (first : bool) (l : list (bytes * item)) : bool :=
-    match P with [] => (match val_lines l with [] => first | _ => false end) | _ => false end.
+  (* is the header of the table written?  always for an array element; for a table unless it is marked
+     implicit and has no key/value line (encode.rs visit_table: is_visible_std_table) *)
+  Definition shown (a im : bool) (l : list (bytes * item)) : bool :=
+    a || negb (im && match val_lines l with [] => true | _ => false end).
+  Definition table_lines (P : list bytes) (a im first : bool) (l : list (bytes * item)) : list dline :=
+    (match P with
+     | [] => []
+     | _ => if shown a im l then (if first then [] else [LBlank]) ++ [LHeader a P] else []
+     end) ++ val_lines l.
+  Definition table_first (P : list bytes) (a im first : bool) (l : list (bytes * item)) : bool :=
+    match P with
+    | [] => (match val_lines l with [] => first | _ => false end)
+    | _ => if shown a im l then false else first
+    end.
 
   Lemma lines_txt_app a b : lines_txt ftext (a ++ b) = lines_txt ftext a ++ lines_txt ftext b.
   Proof. unfold lines_txt. rewrite map_app, concat_app. reflexivity. Qed.
@@ -177,13 +187,12 @@ Section Visit.
     destruct it; cbn [app]; try exact IH. split; discriminate.
   Qed.
 
-  Lemma visit_table_flat P a first l pos : entries_flat l ->
-    visit_table (render_tbl ftext (the_tbl l pos)) (map key_new P) a first
-    = (lines_txt ftext (table_lines P a first l), table_first P first l).
+  Lemma visit_table_flat P a im first l pos : entries_flat l ->
+    visit_table (render_tbl ftext (the_tbl im l pos)) (map key_new P) a first
+    = (lines_txt ftext (table_lines P a im first l), table_first P a im first l).
   Proof.
     intro Hf. unfold visit_table.
-    assert (Esz : forall t, S (tbl_size t) = S (tbl_size t)) by reflexivity.
-    rewrite (table_values_flat _ l pos Hf).
+    rewrite (table_values_flat _ im l pos Hf).
     set (children := flat_map (fun kv => match snd kv with IValue v => [([key_new (fst kv)], render_value ftext v)] | _ => [] end) l).
     assert (Hnil := children_nil l). fold children in Hnil.
     rewrite (body_lines_txt l Hf : flat_map _ children = _).
@@ -194,17 +203,24 @@ Section Visit.
       + destruct (val_lines l) as [|x xs] eqn:Ev; [destruct Hnil as [_ Hn]; discriminate (Hn eq_refl)|]. reflexivity.
     - assert (Ep : exists k1 tl, map key_new (k0 :: P') = k1 :: tl) by (cbn [map]; eauto).
       destruct Ep as (k1 & tl & Ep). rewrite Ep.
-      assert (Evis : negb (t_implicit (render_tbl ftext (the_tbl l pos)) && match children with [] => true | _ => false end) = true)
-        by reflexivity.
-      rewrite Evis. rewrite <- Ep. clear Ep Evis.
+      assert (Eim : t_implicit (render_tbl ftext (the_tbl im l pos)) = im) by reflexivity. rewrite Eim.
+      assert (Enc : match children with [] => true | _ => false end = match val_lines l with [] => true | _ => false end).
+      { destruct children as [|c cs].
+        - rewrite (proj1 Hnil eq_refl). reflexivity.
+        - destruct (val_lines l) as [|x xs] eqn:Ev; [destruct Hnil as [_ Hn]; discriminate (Hn eq_refl)|reflexivity]. }
+      rewrite Enc. rewrite <- Ep. clear Ep Enc.
       (* keys made by Key::new have no decor: the header is printed as encode_key_path prints it *)
       assert (Hb : leaf_blank (map key_new (k0 :: P')) = true).
       { apply leaf_blank_default. intros k Hk. apply in_map_iff in Hk as (x & <- & _). reflexivity. }
       destruct (header_blank (map key_new (k0 :: P')) DEFAULT_KEY_PATH_DECOR Hb) as [Hh Hc]. rewrite Hh, Hc. clear Hb Hh Hc.
-      assert (Edec : t_decor (render_tbl ftext (the_tbl l pos)) = decor_default) by reflexivity. rewrite Edec.
-      unfold decor_prefix, decor_suffix. cbn [d_prefix d_suffix decor_default].
-      destruct a, first; cbn [fst snd DEFAULT_TABLE_DECOR]; unfold lines_txt; cbn [map concat line_txt app];
-        unfold path_txt; rewrite ?app_nil_r, <- ?app_assoc; reflexivity.
+      assert (Edec : t_decor (render_tbl ftext (the_tbl im l pos)) = decor_default) by reflexivity. rewrite Edec.
+      unfold decor_prefix, decor_suffix, shown. cbn [d_prefix d_suffix decor_default].
+      destruct a; cbn [orb].
+      + destruct first; cbn [fst snd DEFAULT_TABLE_DECOR]; unfold lines_txt; cbn [map concat line_txt app];
+          unfold path_txt; rewrite ?app_nil_r, <- ?app_assoc; reflexivity.
+      + destruct (negb (im && match val_lines l with [] => true | _ => false end)); [|reflexivity].
+        destruct first; cbn [fst snd DEFAULT_TABLE_DECOR]; unfold lines_txt; cbn [map concat line_txt app];
+          unfold path_txt; rewrite ?app_nil_r, <- ?app_assoc; reflexivity.
   Qed.
 End Visit.
 
@@ -212,20 +228,21 @@ End Visit.
 Lemma Built_strong (PS : scalar -> Prop) (PK : bytes -> Prop)
       (Pi : item -> Prop) (Pe : list (bytes * item) -> Prop) :
   (forall v, BuiltValue PS PK v -> Pi (IValue v)) ->
-  (forall l, BuiltEntries PS PK l -> Pe l -> Pi (ITable (Tbl (mk_tbl_items l) decor_default false false None None))) ->
-  (forall ls, Forall (BuiltEntries PS PK) ls -> Forall Pe ls ->
-              Pi (IAot (map (fun l => Tbl (mk_tbl_items l) decor_default false false None None) ls) None)) ->
+  (forall im l, BuiltEntries PS PK l -> (im = true -> existsb (fun kv => item_prints (snd kv)) l = true) -> Pe l ->
+                Pi (ITable (Tbl (mk_tbl_items l) decor_default im false None None))) ->
+  (forall ls, Forall (fun x => BuiltEntries PS PK (snd x)) ls -> Forall (fun x => Pe (snd x)) ls ->
+              Pi (IAot (map (fun x => Tbl (mk_tbl_items (snd x)) decor_default (fst x) false None None) ls) None)) ->
   (forall l, NoDup (map fst l) -> Forall PK (map fst l) -> Forall (BuiltItem PS PK) (map snd l) -> Forall Pi (map snd l) -> Pe l) ->
   (forall it, BuiltItem PS PK it -> Pi it) /\ (forall l, BuiltEntries PS PK l -> Pe l).
 Proof.
   intros Hv Ht Ha He.
   assert (G : forall it, BuiltItem PS PK it -> Pi it).
-  { fix IHi 2. intros it Hit. destruct Hit as [v Hb | l Hl | ls Hls].
+  { fix IHi 2. intros it Hit. destruct Hit as [v Hb | im l Hl Hp | ls Hls].
     - apply Hv, Hb.
-    - apply Ht; [exact Hl|]. destruct Hl as [l Hnd Hk Hitems]. apply He; try assumption.
+    - apply Ht; [exact Hl|exact Hp|]. destruct Hl as [l Hnd Hk Hitems]. apply He; try assumption.
       induction Hitems as [|x xs Hx _ IHxs]; constructor; [apply IHi, Hx|exact IHxs].
     - apply Ha; [exact Hls|]. induction Hls as [|l ls Hl _ IHls]; constructor; [|exact IHls].
-      destruct Hl as [l Hnd Hk Hitems]. apply He; try assumption.
+      destruct Hl as [l0 Hnd Hk Hitems]. apply He; try assumption.
       induction Hitems as [|x xs Hx _ IHxs]; constructor; [apply IHi, Hx|exact IHxs]. }
   split; [exact G|]. intros l [l' Hnd Hk Hitems]. apply He; try assumption.
   rewrite Forall_forall in *. intros it Hin. apply G, Hitems, Hin.
